@@ -296,6 +296,7 @@ func (r *Rediaron) doRemoveNode(ctx context.Context, podname, nodename, endpoint
 		fmt.Sprintf(nodeCaKey, nodename),
 		fmt.Sprintf(nodeCertKey, nodename),
 		fmt.Sprintf(nodeKeyKey, nodename),
+		filepath.Join(nodeStatusPrefix, nodename), // the status doesn't outlive the node
 	}
 
 	err := r.BatchDelete(ctx, keys)
